@@ -62,16 +62,12 @@ func (d *Deduplicator) NotifyDKGStarted(
 
 	// The cache key is the hexadecimal representation of the seed.
 	cacheKey := newDKGSeed.Text(16)
-	// If the key is not in the cache, that means the seed was not handled
-	// yet and the client should proceed with the execution.
-	if !d.dkgSeedCache.Has(cacheKey) {
-		d.dkgSeedCache.Add(cacheKey)
-		return true
-	}
-
+	// Add is an atomic test-and-set: it returns true only for the one caller
+	// that actually inserted the key. If the key was not in the cache, the seed
+	// was not handled yet and the client should proceed with the execution.
 	// Otherwise, the DKG seed is a duplicate and the client should not proceed
 	// with the execution.
-	return false
+	return d.dkgSeedCache.Add(cacheKey)
 }
 
 // NotifyRelayEntryStarted notifies the client wants to start relay entry
